@@ -6,15 +6,27 @@
 // for all arguments, so an edit that changes what one of these Go functions computes breaks
 // a named proof obligation (Props/TRANSL.v) and not only a sampled comparison.
 //
-// Statement language: `x := e`, `x = e`, `x op= e`, `a, b = e1, e2`, `var x float64`, if/else
-// blocks that only assign outer variables (-> `let x := if c then .. else ..`), `if c { return e }`
-// chains, `return e`, `return func(..) .. {..}` (closures).
+// Statement language: `x := e`, `x = e`, `x op= e`, `a, b = e1, e2`, `a, b := f(..)` (several results),
+// `var x T`, if/else blocks that only assign outer variables (-> `let x := if c then .. else ..`),
+// `if c { return e }` chains, `switch {case c: ..}` / `switch x {case a, b: ..}` (= if/else-if chains),
+// `return e`, `return e1, e2`, named results, `return func(..) .. {..}` (closures).
+// Loops (coq/Num/Loop.v): `for _, x := range xs {..}` -> fold_left, `for i := range xs` / `for i, x := range xs`
+// -> range_loop, `for i := 0; i < n; i++` -> count_loop, nested, with `continue` (also `if c {..; continue}`)
+// at the top level of the body; the loop state is the tuple of the variables of the enclosing scopes
+// the body assigns (locals, fields s.f of a struct under construction, slices written by index);
+// `xs[i] = e` -> list_set, `xs[i]` -> nth, `append(xs, e..)` -> ++, `make([]T, n)` -> repeat zero n,
+// `len(xs)`, `f(v, ..)` as a statement when f is a procedure of the package writing into its slice
+// parameter (mulVertices2).  Go `int` is Z (float64(i) = ofZ), v2i.Vec / v3i.Vec are tuples of Z,
+// sdf.Interval is a pair, a slice of SDFs is a list of (Evaluate, BoundingBox) pairs, a variadic
+// parameter is a list.  Refused (= broken tie): return / break inside a loop, labelled statements,
+// a loop bound the body modifies, index assignment into a slice another variable may refer to.
 // Expressions: + - * /, unary minus, comparisons, && || !, exact literals, named constants,
-// vector/box fields, v2.Vec{..}/v3.Vec{..}/Box2{..}/Box3{..}/[]v2.Vec{..}, a[i] on matrices,
-// math.Abs/Max/Min/Sqrt/Floor/Ceil/Sin/Cos/Tan/Atan/Atan2/Acos/Mod, calls of other translated
-// functions and vector/box methods (translated themselves, on demand), receiver fields s.f
-// (they become parameters s_f of the definition), wrapped SDFs and function-valued fields as
-// opaque function parameters.
+// vector/box fields, v2.Vec{..}/v3.Vec{..}/Box2{..}/Box3{..} (positional or keyed)/[]v2.Vec{..}, a[i] on
+// matrices, math.Abs/Max/Min/Sqrt/Floor/Ceil/Sin/Cos/Tan/Atan/Atan2/Acos/Mod, calls of other translated
+// functions and vector/box methods (translated themselves, on demand), methods of the same struct
+// (s.EvaluateSlow(p)), receiver fields s.f (they become parameters s_f of the definition), wrapped
+// SDFs and function-valued fields as opaque function parameters.
+// Normal forms: (-x)*y, x*(-y), (-x)/y, x/(-y) are emitted as -(x*y), -(x/y) (the same float64).
 // Constructors (functions returning SDF2/SDF3, with or without an error): `s := T{}` /
 // `s := T{f: e}`, `s.f = e` (-> `let s_f := e`), `return nil, err` (-> None), `return &s, nil`
 // (-> Some (T.Evaluate applied to the fields, T.BoundingBox applied to the fields)); a wrapped
@@ -27,6 +39,7 @@ import (
 	"go/ast"
 	"go/parser"
 	"go/token"
+	"math"
 	"math/big"
 	"path/filepath"
 	"sort"
@@ -44,7 +57,7 @@ type Target struct{ Pkg, Key string }
 var vecMethods = []string{"Add", "Sub", "Mul", "Div", "Neg", "Abs", "MulScalar", "DivScalar", "AddScalar",
 	"SubScalar", "Min", "Max", "Dot", "Cross", "Length2", "Length", "Normalize", "MinComponent", "MaxComponent", "Clamp"}
 
-var boxMethods = []string{"Extend", "Include", "Translate", "Size", "Center", "ScaleAboutCenter", "Enlarge", "Contains", "Vertices"}
+var boxMethods = []string{"Extend", "Include", "Translate", "Size", "Center", "ScaleAboutCenter", "Enlarge", "Contains", "Vertices", "MinMaxDist2"}
 
 // Targets lists every function translated (callees are pulled in on demand).
 func Targets() []Target {
@@ -53,6 +66,7 @@ func Targets() []Target {
 		for _, m := range vecMethods {
 			ts = append(ts, Target{p, "Vec." + m})
 		}
+		ts = append(ts, Target{p, "VecSet.Min"}, Target{p, "VecSet.Max"})
 	}
 	for _, b := range []string{"Box2", "Box3"} {
 		ts = append(ts, Target{"sdf", "New" + b})
@@ -62,7 +76,7 @@ func Targets() []Target {
 	}
 	for _, k := range []string{
 		// matrix.go (the rest of the file is translated by harness/exprgen)
-		"M33.MulBox", "M44.MulBox",
+		"M33.MulBox", "M44.MulBox", "mulVertices2", "mulVertices3",
 		// utils.go
 		"Clamp", "Mix", "Sign", "SawTooth", "poly", "RoundMin", "ChamferMin", "PolyMin", "PolyMax",
 		"NormalExtrude", "TwistExtrude", "ScaleExtrude", "ScaleTwistExtrude",
@@ -80,6 +94,15 @@ func Targets() []Target {
 		"ScaleUniform2D", "Elongate2D",
 		"Sphere3D", "Box3D", "Cylinder3D", "Capsule3D", "Cone3D", "Extrude3D", "ScaleExtrude3D", "ExtrudeRounded3D", "Loft3D",
 		"Transform3D", "ScaleUniform3D", "Difference3D", "Intersect3D", "Cut3D", "Elongate3D", "Offset3D", "Shell3D",
+		// code with loops: Evaluate methods
+		"UnionSDF2.EvaluateSlow", "UnionSDF2.Evaluate", "ArraySDF2.Evaluate", "RotateUnionSDF2.Evaluate",
+		"UnionSDF3.Evaluate", "ArraySDF3.Evaluate", "RotateUnionSDF3.Evaluate",
+		// mutators: the new values of the fields they assign
+		"IntersectionSDF2.SetMax", "DifferenceSDF2.SetMax", "ArraySDF2.SetMin", "RotateUnionSDF2.SetMin", "UnionSDF2.SetMin",
+		"ExtrudeSDF3.SetExtrude", "UnionSDF3.SetMin", "DifferenceSDF3.SetMax", "IntersectionSDF3.SetMax", "ArraySDF3.SetMin", "RotateUnionSDF3.SetMin",
+		// code with loops: constructors
+		"Union2D", "Array2D", "RotateUnion2D", "RotateCopy2D", "Slice2D",
+		"RevolveTheta3D", "Revolve3D", "TwistExtrude3D", "ScaleTwistExtrude3D", "Union3D", "Array3D", "RotateUnion3D", "RotateCopy3D",
 	} {
 		ts = append(ts, Target{"sdf", k})
 	}
@@ -108,8 +131,13 @@ const (
 	kBox3
 	kP2 // p2.Vec{R, Theta}: a pair
 	kBool
-	kList   // args[0] = element
+	kInt    // Go int: Z
+	kV2i    // v2i.Vec{X, Y int}: (Z * Z)
+	kV3i    // v3i.Vec{X, Y, Z int}: (Z * Z * Z)
+	kIval   // sdf.Interval = [2]float64: (T * T)
+	kList   // args[0] = element (an SDF element is the pair (Evaluate, BoundingBox))
 	kFn     // args -> ret
+	kTuple  // several results of a function: args
 	kObjOpt // result of a constructor: option (Evaluate, BoundingBox); args[0] = point type
 )
 
@@ -131,6 +159,10 @@ var (
 	tBox3 = typ{k: kBox3}
 	tBool = typ{k: kBool}
 	tP2   = typ{k: kP2}
+	tInt  = typ{k: kInt}
+	tV2i  = typ{k: kV2i}
+	tV3i  = typ{k: kV3i}
+	tIval = typ{k: kIval}
 )
 
 func fnType(ret typ, args ...typ) typ { return typ{k: kFn, args: args, ret: &ret} }
@@ -164,8 +196,26 @@ func (t typ) coq() string {
 		return "(T O * T O)%type"
 	case kBool:
 		return "bool"
+	case kInt:
+		return "Z"
+	case kV2i:
+		return "(Z * Z)%type"
+	case kV3i:
+		return "(Z * Z * Z)%type"
+	case kIval:
+		return "(T O * T O)%type"
 	case kList:
-		return "list (" + t.args[0].coq() + ")"
+		return "list (" + t.args[0].elemCoq() + ")"
+	case kTuple:
+		var ps []string
+		for _, a := range t.args {
+			if a.k == kFn {
+				ps = append(ps, "("+a.coq()+")")
+			} else {
+				ps = append(ps, a.coq())
+			}
+		}
+		return "(" + strings.Join(ps, " * ") + ")%type"
 	case kObjOpt:
 		return "option ((" + t.args[0].coq() + " -> T O) * " + boxOf(t.args[0]).coq() + ")"
 	}
@@ -178,6 +228,49 @@ func (t typ) coq() string {
 		ps = append(ps, s)
 	}
 	return strings.Join(append(ps, t.ret.coq()), " -> ")
+}
+
+// the Gallina type of a slice element: an SDF is the pair (Evaluate, BoundingBox)
+func (t typ) elemCoq() string {
+	if t.iface {
+		return "(" + t.args[0].coq() + " -> T O) * " + boxOf(t.args[0]).coq()
+	}
+	return t.coq()
+}
+
+// the zero value of a Go type (var x T, make([]T, n), the default of an index expression)
+func (t typ) zero() (string, bool) {
+	switch t.k {
+	case kT:
+		return "(o0 O)", true
+	case kInt:
+		return "0%Z", true
+	case kBool:
+		return "false", true
+	case kV2:
+		return "(mkV2 (o0 O) (o0 O))", true
+	case kV3:
+		return "(mkV3 (o0 O) (o0 O) (o0 O))", true
+	case kBox2:
+		return "(mkBox2 (mkV2 (o0 O) (o0 O)) (mkV2 (o0 O) (o0 O)))", true
+	case kBox3:
+		return "(mkBox3 (mkV3 (o0 O) (o0 O) (o0 O)) (mkV3 (o0 O) (o0 O) (o0 O)))", true
+	case kIval, kP2:
+		return "((o0 O), (o0 O))", true
+	case kV2i:
+		return "(0%Z, 0%Z)", true
+	case kV3i:
+		return "(0%Z, 0%Z, 0%Z)", true
+	case kList:
+		return "[]", true
+	case kFn:
+		if t.iface {
+			// never evaluated when indices are in range (a nil SDF would panic in Go)
+			bz, _ := boxOf(t.args[0]).zero()
+			return "((fun _ : " + t.args[0].coq() + " => (o0 O)), " + bz + ")", true
+		}
+	}
+	return "", false
 }
 
 func (t typ) goName() string {
@@ -202,8 +295,22 @@ func (t typ) goName() string {
 		return "p2.Vec"
 	case kBool:
 		return "bool"
+	case kInt:
+		return "int"
+	case kV2i:
+		return "v2i.Vec"
+	case kV3i:
+		return "v3i.Vec"
+	case kIval:
+		return "Interval"
 	case kList:
 		return "[]" + t.args[0].goName()
+	case kTuple:
+		var ps []string
+		for _, a := range t.args {
+			ps = append(ps, a.goName())
+		}
+		return "(" + strings.Join(ps, ", ") + ")"
 	case kObjOpt:
 		return "SDF" + map[kind]string{kV2: "2", kV3: "3"}[t.args[0].k] + " (constructor result)"
 	}
@@ -347,6 +454,8 @@ type Def struct {
 	params   []typ    // Go-level parameters after the receiver fields (an SDF parameter is one entry, two binders)
 	fields   []string // receiver fields that became the leading parameters
 	isConst  bool
+	rat      *big.Rat // a constant: its exact value when known
+	mutates  []int    // a procedure writing into slice parameters: their indices; the definition returns their final values
 }
 
 type Param struct{ Name, Type string }
@@ -410,6 +519,52 @@ func exactFloat(z *big.Int) bool {
 	return odd.Cmp(limit53) < 0 && z.BitLen() < 1000
 }
 
+// the value of math.Pi: the decimal literal of Go's math package (the compiler computes with it exactly)
+var ratPi, _ = new(big.Rat).SetString("3.14159265358979323846264338327950288419716939937510582097494459")
+
+func exactOp(op token.Token, a, b *big.Rat) *big.Rat {
+	switch op {
+	case token.ADD:
+		return new(big.Rat).Add(a, b)
+	case token.SUB:
+		return new(big.Rat).Sub(a, b)
+	case token.MUL:
+		return new(big.Rat).Mul(a, b)
+	case token.QUO:
+		if b.Sign() != 0 {
+			return new(big.Rat).Quo(a, b)
+		}
+	}
+	return nil
+}
+
+// The Go compiler evaluates a constant expression exactly and rounds once; the model rounds the
+// operands and applies the float64 operation.  For given constants the two can be compared here.
+func sameWhenRounded(op token.Token, a, b *big.Rat) bool {
+	if a == nil || b == nil {
+		return false
+	}
+	r := exactOp(op, a, b)
+	if r == nil {
+		return false
+	}
+	fa, _ := a.Float64()
+	fb, _ := b.Float64()
+	want, _ := r.Float64()
+	var got float64
+	switch op {
+	case token.ADD:
+		got = fa + fb
+	case token.SUB:
+		got = fa - fb
+	case token.MUL:
+		got = fa * fb
+	case token.QUO:
+		got = fa / fb
+	}
+	return got == want && !math.IsInf(got, 0) && got != 0
+}
+
 // ratCoq prints an exact non-negative decimal constant: 0, 1, 2, 1/2 by name, integers through
 // ofZ, other decimals as `cst n 10^k` (= correctly rounded n/10^k, which is how Go rounds the literal).
 func ratCoq(r *big.Rat) (string, error) {
@@ -434,6 +589,10 @@ func ratCoq(r *big.Rat) (string, error) {
 	if r.Cmp(ratHalf) == 0 {
 		return "half", nil
 	}
+	if isPow2(new(big.Rat).SetInt(r.Denom())) && exactFloat(r.Num()) && exactFloat(r.Denom()) {
+		// a dyadic constant p/2^k: both are exact and so is their float64 quotient
+		return fmt.Sprintf("(cst %s %s)", r.Num(), r.Denom()), nil
+	}
 	d := big.NewInt(1)
 	for k := 0; k < 40; k++ {
 		n := new(big.Rat).Mul(r, new(big.Rat).SetInt(d))
@@ -451,11 +610,14 @@ func ratCoq(r *big.Rat) (string, error) {
 // ---------------------------------------------------------------- function context
 
 type binding struct {
-	coq  string
-	t    typ
-	zero bool   // declared with `var x float64`, not assigned yet
-	bb   string // an SDF value: the Gallina name of its bounding box
-	capt bool   // a variable of the enclosing function seen from inside a closure: read-only
+	coq   string
+	t     typ
+	zero  bool   // declared with `var x float64`, not assigned yet
+	bb    string // an SDF value: the Gallina name of its bounding box
+	capt  bool   // a variable of the enclosing function seen from inside a closure: read-only
+	fresh bool   // a slice nothing else refers to (so xs[i] = e is an update of this variable only)
+	// the receiver of a mutator method: a field that has not been assigned is not known (no zero value)
+	mutated bool
 	// a struct under construction (`s := T{}`): the current value of each field
 	structName string
 	fields     map[string]*binding
@@ -488,6 +650,8 @@ type fctx struct {
 	recvStruct string
 	used       map[string]typ // receiver fields used
 	results    []typ          // result types: function, then enclosing closures
+	named      []string       // named results of the function
+	mutator    string         // the receiver name of a mutator method
 }
 
 type val struct {
@@ -497,9 +661,14 @@ type val struct {
 	rat   *big.Rat // its exact value when known
 	isInt bool     // an untyped integer constant (1/2 is integer division in Go)
 	bb    string   // SDF value: its bounding box
+	fresh bool     // a slice value nothing else refers to (make, literal, result of a call)
+	pos   string   // the expression is `- pos` (a negated non-constant): see binary
 }
 
 func (f *fctx) errf(n ast.Node, format string, a ...interface{}) error {
+	if n == nil {
+		return fmt.Errorf("sdfgen: %s.%s (%s): %s", f.p.name, f.key, f.file.rel, fmt.Sprintf(format, a...))
+	}
 	pos := f.g.fset.Position(n.Pos())
 	return fmt.Errorf("sdfgen: %s.%s (%s:%d): %s", f.p.name, f.key, f.file.rel, pos.Line, fmt.Sprintf(format, a...))
 }
@@ -515,6 +684,8 @@ func (g *gen) goType(p *pkg, sf *srcFile, e ast.Expr) (typ, error) {
 			return tT, nil
 		case "bool":
 			return tBool, nil
+		case "int":
+			return tInt, nil
 		}
 		return g.namedType(p, x.Name)
 	case *ast.SelectorExpr:
@@ -533,6 +704,13 @@ func (g *gen) goType(p *pkg, sf *srcFile, e ast.Expr) (typ, error) {
 			}
 			return listType(el), nil
 		}
+	case *ast.Ellipsis:
+		// a variadic parameter is a slice
+		el, err := g.goType(p, sf, x.Elt)
+		if err != nil {
+			return typ{}, err
+		}
+		return listType(el), nil
 	}
 	return typ{}, fmt.Errorf("unsupported type %s", exprString(e))
 }
@@ -565,6 +743,35 @@ func (g *gen) namedType(p *pkg, name string) (typ, error) {
 			return typ{}, fmt.Errorf("%s.Vec is not struct{%s float64} any more", p.name, want)
 		}
 		return map[string]typ{"v2": tV2, "v3": tV3, "p2": tP2}[p.name], nil
+	case (p.name == "v2i" || p.name == "v3i") && name == "Vec":
+		st, ok := p.structs["Vec"]
+		want := map[string]string{"v2i": "X Y", "v3i": "X Y Z"}[p.name]
+		var names []string
+		if ok {
+			for _, fl := range st.Fields.List {
+				if id, isId := fl.Type.(*ast.Ident); !isId || id.Name != "int" {
+					return typ{}, fmt.Errorf("%s.Vec is not struct{%s int} any more", p.name, want)
+				}
+				for _, n := range fl.Names {
+					names = append(names, n.Name)
+				}
+			}
+		}
+		if strings.Join(names, " ") != want {
+			return typ{}, fmt.Errorf("%s.Vec is not struct{%s int} any more", p.name, want)
+		}
+		return map[string]typ{"v2i": tV2i, "v3i": tV3i}[p.name], nil
+	case p.name == "sdf" && name == "Interval":
+		at, ok := p.atypes[name]
+		if ok {
+			ln, isLit := at.Len.(*ast.BasicLit)
+			el, isId := at.Elt.(*ast.Ident)
+			ok = isLit && ln.Value == "2" && isId && el.Name == "float64"
+		}
+		if !ok {
+			return typ{}, fmt.Errorf("sdf.Interval is not [2]float64 any more")
+		}
+		return tIval, nil
 	case p.name == "sdf" && name == "M22":
 		return tM22, nil
 	case p.name == "sdf" && name == "M33":
@@ -671,27 +878,83 @@ func isNil(x ast.Expr, e env) bool {
 	return !shadow
 }
 
+// an untyped integer constant expression used where Go wants an int
+func asInt(v val) (val, bool) {
+	if v.t.k == kInt {
+		return v, true
+	}
+	if v.t.k == kT && v.konst && v.isInt && v.rat != nil && v.rat.IsInt() {
+		return val{s: "(" + v.rat.Num().String() + ")%Z", t: tInt, konst: true, rat: v.rat, isInt: true}, true
+	}
+	return v, false
+}
+
+var intArith = map[token.Token]string{token.ADD: "Z.add", token.SUB: "Z.sub", token.MUL: "Z.mul", token.QUO: "Z.quot", token.REM: "Z.rem"}
+
+// Go int arithmetic on Z (no overflow: the integers here are loop bounds and counts)
+func (f *fctx) intBinary(n ast.Node, op token.Token, a, b val) (val, error) {
+	if fn, ok := intArith[op]; ok {
+		return val{s: fmt.Sprintf("(%s %s %s)", fn, a.s, b.s), t: tInt}, nil
+	}
+	switch op {
+	case token.LSS:
+		return val{s: fmt.Sprintf("(Z.ltb %s %s)", a.s, b.s), t: tBool}, nil
+	case token.LEQ:
+		return val{s: fmt.Sprintf("(Z.leb %s %s)", a.s, b.s), t: tBool}, nil
+	case token.GTR:
+		return val{s: fmt.Sprintf("(Z.ltb %s %s)", b.s, a.s), t: tBool}, nil
+	case token.GEQ:
+		return val{s: fmt.Sprintf("(Z.leb %s %s)", b.s, a.s), t: tBool}, nil
+	case token.EQL:
+		return val{s: fmt.Sprintf("(Z.eqb %s %s)", a.s, b.s), t: tBool}, nil
+	case token.NEQ:
+		return val{s: fmt.Sprintf("(negb (Z.eqb %s %s))", a.s, b.s), t: tBool}, nil
+	}
+	return val{}, f.errf(n, "unsupported operator %s on int", op)
+}
+
 func (f *fctx) binary(n ast.Node, op token.Token, a, b val) (val, error) {
+	if a.t.k == kInt || b.t.k == kInt {
+		ai, oka := asInt(a)
+		bi, okb := asInt(b)
+		if !oka || !okb {
+			return val{}, f.errf(n, "operator %s on %s and %s", op, a.t.goName(), b.t.goName())
+		}
+		return f.intBinary(n, op, ai, bi)
+	}
 	if sym, ok := arith[op]; ok {
 		if a.t.k != kT || b.t.k != kT {
 			return val{}, f.errf(n, "operator %s on %s and %s", op, a.t.goName(), b.t.goName())
 		}
 		r := val{s: fmt.Sprintf("(%s %s %s)", a.s, sym, b.s), t: tT}
+		if (op == token.MUL || op == token.QUO) && (a.pos != "" || b.pos != "") {
+			// (-x)*y, x*(-y), (-x)/y, x/(-y) are written -(x*y), -(x/y): the same float64 (rounding is
+			// symmetric; only the sign bit of a NaN result can differ), so that `-h/2` and `-(h/2)`
+			// (e.g. after hoisting half := h/2) are the same term
+			as, bs := a.s, b.s
+			if a.pos != "" {
+				as = a.pos
+			}
+			if b.pos != "" {
+				bs = b.pos
+			}
+			inner := fmt.Sprintf("(%s %s %s)", as, sym, bs)
+			if a.pos != "" && b.pos != "" {
+				return val{s: inner, t: tT}, nil
+			}
+			return val{s: "(- " + inner + ")", t: tT, pos: inner}, nil
+		}
 		if a.konst && b.konst {
 			// the Go compiler folds constant expressions exactly; only scaling by a power of two
 			// is the same thing in float64 arithmetic
 			okMul := op == token.MUL && (isPow2(a.rat) || isPow2(b.rat))
 			okDiv := op == token.QUO && isPow2(b.rat) && !(a.isInt && b.isInt) // 1/2 == 0 in Go
-			if !okMul && !okDiv {
-				return val{}, f.errf(n, "constant expression folded exactly by the compiler (only c*2^k, c/2^k are modelled)")
+			if !okMul && !okDiv && !(sameWhenRounded(op, a.rat, b.rat) && !(op == token.QUO && a.isInt && b.isInt)) {
+				return val{}, f.errf(n, "constant expression folded exactly by the compiler (modelled: c*2^k, c/2^k, and a product/quotient/sum whose float64 evaluation gives the correctly rounded exact value)")
 			}
 			r.konst, r.isInt = true, a.isInt && b.isInt
 			if a.rat != nil && b.rat != nil {
-				if op == token.MUL {
-					r.rat = new(big.Rat).Mul(a.rat, b.rat)
-				} else {
-					r.rat = new(big.Rat).Quo(a.rat, b.rat)
-				}
+				r.rat = exactOp(op, a.rat, b.rat)
 			}
 		}
 		return r, nil
@@ -738,6 +1001,19 @@ func (f *fctx) field(n ast.Node, x val, name string) (val, error) {
 		rt = tV3
 	case kP2:
 		acc, ok = map[string]string{"R": "fst", "Theta": "snd"}[name]
+	case kV2i:
+		acc, ok = map[string]string{"X": "fst", "Y": "snd"}[name]
+		rt = tInt
+	case kV3i:
+		// (x, y, z) is ((x, y), z)
+		switch name {
+		case "X":
+			return val{s: "(fst (fst " + x.s + "))", t: tInt}, nil
+		case "Y":
+			return val{s: "(snd (fst " + x.s + "))", t: tInt}, nil
+		case "Z":
+			return val{s: "(snd " + x.s + ")", t: tInt}, nil
+		}
 	}
 	if !ok {
 		return val{}, f.errf(n, "field .%s of %s", name, x.t.goName())
@@ -780,11 +1056,11 @@ func (f *fctx) builtField(n ast.Node, b *binding, goVar, name string) (val, erro
 	if err != nil || !ok {
 		return val{}, f.errf(n, "field %s.%s: %v", b.structName, name, err)
 	}
-	if fb, ok := b.fields[name]; ok {
-		return val{s: fb.coq, t: fb.t, bb: fb.bb}, nil
+	if fb, ok := b.fields[name]; ok && !fb.zero {
+		return val{s: fb.coq, t: fb.t, bb: fb.bb, fresh: fb.fresh}, nil
 	}
-	if t.k == kT {
-		return val{s: "(o0 O)", t: tT}, nil // zero value
+	if z, ok := t.zero(); ok && !t.iface && !b.mutated {
+		return val{s: z, t: t}, nil // zero value
 	}
 	return val{}, f.errf(n, "field %s.%s is read before it is assigned", goVar, name)
 }
@@ -798,6 +1074,9 @@ func (f *fctx) args(n ast.Node, what string, want []typ, as []ast.Expr, e env) (
 		v, err := f.expr(a, e)
 		if err != nil {
 			return nil, err
+		}
+		if want[i].k == kInt {
+			v, _ = asInt(v)
 		}
 		if !v.t.eq(want[i]) {
 			return nil, f.errf(a, "%s: argument %d has type %s, expected %s", what, i+1, v.t.goName(), want[i].goName())
@@ -838,7 +1117,23 @@ func (f *fctx) callDef(n ast.Node, q *pkg, key string, recv *val, as []ast.Expr,
 		return val{}, err
 	}
 	if len(d.fields) != 0 {
-		return val{}, f.errf(n, "call of %s, a method using receiver fields", key)
+		// s.Method(..) inside another method of the same struct: pass the receiver fields it uses
+		if recv != nil || q != f.p || f.recvStruct == "" || !strings.HasPrefix(key, f.recvStruct+".") {
+			return val{}, f.errf(n, "call of %s, a method using receiver fields", key)
+		}
+		var pre []string
+		for _, fn := range d.fields {
+			fv, err := f.recvField(n, fn)
+			if err != nil {
+				return val{}, err
+			}
+			pre = append(pre, fv.s)
+		}
+		ss, err := f.args(n, q.name+"."+key, d.params, as, e)
+		if err != nil {
+			return val{}, err
+		}
+		return val{s: app(d.Name, append(pre, ss...)), t: d.ret}, nil
 	}
 	want := d.params
 	var pre []string
@@ -849,7 +1144,10 @@ func (f *fctx) callDef(n ast.Node, q *pkg, key string, recv *val, as []ast.Expr,
 	if err != nil {
 		return val{}, err
 	}
-	return val{s: app(d.Name, append(pre, ss...)), t: d.ret}, nil
+	if d.mutates != nil {
+		return val{}, f.errf(n, "%s.%s modifies its slice argument: only supported as a statement", q.name, key)
+	}
+	return val{s: app(d.Name, append(pre, ss...)), t: d.ret, fresh: d.ret.k == kList}, nil
 }
 
 func (f *fctx) call(x *ast.CallExpr, e env) (val, error) {
@@ -874,6 +1172,9 @@ func (f *fctx) call(x *ast.CallExpr, e env) (val, error) {
 		if _, ok := f.p.funcs[fn.Name]; ok || f.g.externs[f.p.name+"."+fn.Name].coq != "" {
 			return f.callDef(x, f.p, fn.Name, nil, x.Args, e)
 		}
+		if v, ok, err := f.builtin(x, fn.Name, e); ok || err != nil {
+			return v, err
+		}
 		return val{}, f.errf(x, "call of unknown function %s", fn.Name)
 	case *ast.SelectorExpr:
 		if id, ok := fn.X.(*ast.Ident); ok {
@@ -897,6 +1198,10 @@ func (f *fctx) call(x *ast.CallExpr, e env) (val, error) {
 			}
 			if id.Name == f.recv && f.recv != "" {
 				if _, shadow := e[id.Name]; !shadow {
+					if _, isMethod := f.p.funcs[f.recvStruct+"."+fn.Sel.Name]; isMethod {
+						// s.EvaluateSlow(p): another method of the same struct
+						return f.callDef(x, f.p, f.recvStruct+"."+fn.Sel.Name, nil, x.Args, e)
+					}
 					// s.extrude(p), s.max(a, b): a function-valued receiver field
 					fv, err := f.recvField(x, fn.Sel.Name)
 					if err != nil {
@@ -937,10 +1242,146 @@ func (f *fctx) call(x *ast.CallExpr, e env) (val, error) {
 			return f.callDef(x, f.g.pkgs["v3"], "Vec."+fn.Sel.Name, &recv, x.Args, e)
 		case kM22, kM33, kM44, kBox2, kBox3:
 			return f.callDef(x, f.g.pkgs["sdf"], recv.t.goName()+"."+fn.Sel.Name, &recv, x.Args, e)
+		case kV2i:
+			return f.callDef(x, f.g.pkgs["v2i"], "Vec."+fn.Sel.Name, &recv, x.Args, e)
+		case kV3i:
+			return f.callDef(x, f.g.pkgs["v3i"], "Vec."+fn.Sel.Name, &recv, x.Args, e)
+		case kList:
+			// v2.VecSet / v3.VecSet methods
+			switch recv.t.args[0].k {
+			case kV2:
+				return f.callDef(x, f.g.pkgs["v2"], "VecSet."+fn.Sel.Name, &recv, x.Args, e)
+			case kV3:
+				return f.callDef(x, f.g.pkgs["v3"], "VecSet."+fn.Sel.Name, &recv, x.Args, e)
+			}
 		}
 		return val{}, f.errf(x, "method %s on %s", fn.Sel.Name, recv.t.goName())
 	}
 	return val{}, f.errf(x, "unsupported call %s", exprString(x.Fun))
+}
+
+// the element of a slice: an SDF is the pair (Evaluate, BoundingBox)
+func (f *fctx) elemString(n ast.Node, v val) (string, error) {
+	if v.t.iface {
+		if v.bb == "" {
+			return "", f.errf(n, "the bounding box of this SDF value is not known here")
+		}
+		return "(" + v.s + ", " + v.bb + ")", nil
+	}
+	return v.s, nil
+}
+
+// an element read back from a slice
+func elemVal(s string, t typ) val {
+	if t.iface {
+		return val{s: "(fst " + s + ")", t: t, bb: "(snd " + s + ")"}
+	}
+	return val{s: s, t: t}
+}
+
+// float64(x), int(x), len(xs), append(xs, ..), make([]T, n)
+func (f *fctx) builtin(x *ast.CallExpr, name string, e env) (val, bool, error) {
+	fail := func(format string, a ...interface{}) (val, bool, error) {
+		return val{}, true, f.errf(x, format, a...)
+	}
+	switch name {
+	case "float64", "int":
+		if len(x.Args) != 1 {
+			return fail("%s with %d arguments", name, len(x.Args))
+		}
+		v, err := f.expr(x.Args[0], e)
+		if err != nil {
+			return val{}, true, err
+		}
+		switch {
+		case name == "float64" && v.t.k == kInt:
+			return val{s: "(ofZ O " + v.s + ")", t: tT}, true, nil
+		case name == "float64" && v.t.k == kT:
+			v.isInt = false
+			return v, true, nil
+		case name == "int" && v.t.k == kInt:
+			return v, true, nil
+		case name == "int" && v.t.k == kT && !v.konst:
+			return val{s: "(otoZ O " + v.s + ")", t: tInt}, true, nil
+		}
+		return fail("%s(%s)", name, v.t.goName())
+	case "len":
+		if len(x.Args) != 1 {
+			return fail("len with %d arguments", len(x.Args))
+		}
+		v, err := f.expr(x.Args[0], e)
+		if err != nil {
+			return val{}, true, err
+		}
+		if v.t.k != kList {
+			return fail("len(%s)", v.t.goName())
+		}
+		return val{s: "(Z.of_nat (length " + v.s + "))", t: tInt}, true, nil
+	case "append":
+		if len(x.Args) < 2 {
+			return fail("append with %d arguments", len(x.Args))
+		}
+		v, err := f.expr(x.Args[0], e)
+		if err != nil {
+			return val{}, true, err
+		}
+		if v.t.k != kList {
+			return fail("append to %s", v.t.goName())
+		}
+		var es []string
+		for _, a := range x.Args[1:] {
+			var ev val
+			if cl, ok := a.(*ast.CompositeLit); ok && cl.Type == nil {
+				ev, err = f.composite(cl, &v.t.args[0], e)
+			} else {
+				ev, err = f.expr(a, e)
+			}
+			if err != nil {
+				return val{}, true, err
+			}
+			if v.t.args[0].k == kInt {
+				ev, _ = asInt(ev)
+			}
+			if !ev.t.eq(v.t.args[0]) {
+				return fail("append of %s to %s", ev.t.goName(), v.t.goName())
+			}
+			s, err := f.elemString(a, ev)
+			if err != nil {
+				return val{}, true, err
+			}
+			es = append(es, s)
+		}
+		return val{s: "(" + v.s + " ++ [" + strings.Join(es, "; ") + "])", t: v.t, fresh: v.fresh}, true, nil
+	case "make":
+		if len(x.Args) != 2 && len(x.Args) != 3 {
+			return fail("make with %d arguments", len(x.Args))
+		}
+		t, err := f.goType(x.Args[0])
+		if err != nil || t.k != kList {
+			return fail("make of a non-slice type")
+		}
+		n, err := f.expr(x.Args[1], e)
+		if err != nil {
+			return val{}, true, err
+		}
+		n, ok := asInt(n)
+		if !ok {
+			return fail("make with a length of type %s", n.t.goName())
+		}
+		if n.konst && n.rat != nil && n.rat.Sign() == 0 {
+			// make([]T, 0, cap): the capacity is not observable
+			return val{s: "[]", t: t, fresh: true}, true, nil
+		}
+		if len(x.Args) == 3 {
+			return fail("make with a non-zero length and a capacity")
+		}
+		z, ok := t.args[0].zero()
+		if !ok {
+			return fail("make: no zero value for %s", t.args[0].goName())
+		}
+		return val{s: "(repeat " + z + " (Z.to_nat " + n.s + "))", t: t, fresh: true}, true, nil
+	}
+	return val{}, false, nil
 }
 
 // composite literal of a vector, box or slice type (implied = element type of an enclosing slice literal)
@@ -956,7 +1397,46 @@ func (f *fctx) composite(x *ast.CompositeLit, implied *typ, e env) (val, error) 
 	} else {
 		return val{}, f.errf(x, "composite literal without a type")
 	}
-	for _, el := range x.Elts {
+	elts := x.Elts
+	if len(elts) > 0 {
+		if _, keyed := elts[0].(*ast.KeyValueExpr); keyed {
+			// Box3{Min: a, Max: b}: reorder by field; a missing field is its zero value
+			order := map[kind][]string{kV2: {"X", "Y"}, kV3: {"X", "Y", "Z"}, kBox2: {"Min", "Max"}, kBox3: {"Min", "Max"},
+				kP2: {"R", "Theta"}, kV2i: {"X", "Y"}, kV3i: {"X", "Y", "Z"}}[t.k]
+			if order == nil {
+				return val{}, f.errf(x, "keyed %s literal", t.goName())
+			}
+			byName := map[string]ast.Expr{}
+			for _, el := range elts {
+				kv, ok := el.(*ast.KeyValueExpr)
+				key, isId := (ast.Expr)(nil), false
+				var name string
+				if ok {
+					key = kv.Key
+					if id, ok2 := key.(*ast.Ident); ok2 {
+						name, isId = id.Name, true
+					}
+				}
+				if !ok || !isId || byName[name] != nil {
+					return val{}, f.errf(x, "unsupported keyed %s literal", t.goName())
+				}
+				byName[name] = kv.Value
+			}
+			elts = nil
+			for _, fn := range order {
+				v, ok := byName[fn]
+				if !ok {
+					return val{}, f.errf(x, "%s literal without the field %s (zero-valued fields are not modelled)", t.goName(), fn)
+				}
+				elts = append(elts, v)
+				delete(byName, fn)
+			}
+			if len(byName) != 0 {
+				return val{}, f.errf(x, "%s literal with an unknown field", t.goName())
+			}
+		}
+	}
+	for _, el := range elts {
 		if _, keyed := el.(*ast.KeyValueExpr); keyed {
 			return val{}, f.errf(x, "keyed %s literal", t.goName())
 		}
@@ -972,40 +1452,47 @@ func (f *fctx) composite(x *ast.CompositeLit, implied *typ, e env) (val, error) 
 		if err != nil {
 			return "", err
 		}
+		if want.k == kInt {
+			v, _ = asInt(v)
+		}
 		if !v.t.eq(want) {
 			return "", f.errf(el, "element of type %s in a %s literal", v.t.goName(), t.goName())
 		}
-		return v.s, nil
+		return f.elemString(el, v)
 	}
 	if t.k == kList {
 		var es []string
-		for _, el := range x.Elts {
+		for _, el := range elts {
 			s, err := elem(el, t.args[0])
 			if err != nil {
 				return val{}, err
 			}
 			es = append(es, s)
 		}
-		return val{s: "[" + strings.Join(es, "; ") + "]", t: t}, nil
+		return val{s: "[" + strings.Join(es, "; ") + "]", t: t, fresh: true}, nil
 	}
 	shape, ok := map[kind]struct {
 		mk string
 		n  int
 		el typ
-	}{kV2: {"mkV2", 2, tT}, kV3: {"mkV3", 3, tT}, kBox2: {"mkBox2", 2, tV2}, kBox3: {"mkBox3", 2, tV3}, kP2: {"pair", 2, tT}}[t.k]
+	}{kV2: {"mkV2", 2, tT}, kV3: {"mkV3", 3, tT}, kBox2: {"mkBox2", 2, tV2}, kBox3: {"mkBox3", 2, tV3}, kP2: {"pair", 2, tT},
+		kV2i: {"", 2, tInt}, kV3i: {"", 3, tInt}, kIval: {"", 2, tT}}[t.k]
 	if !ok {
 		return val{}, f.errf(x, "composite literal of %s", t.goName())
 	}
-	if len(x.Elts) != shape.n {
-		return val{}, f.errf(x, "%s literal with %d elements (partial literals are not modelled)", t.goName(), len(x.Elts))
+	if len(elts) != shape.n {
+		return val{}, f.errf(x, "%s literal with %d elements (partial literals are not modelled)", t.goName(), len(elts))
 	}
 	var es []string
-	for _, el := range x.Elts {
+	for _, el := range elts {
 		s, err := elem(el, shape.el)
 		if err != nil {
 			return val{}, err
 		}
 		es = append(es, s)
+	}
+	if shape.mk == "" {
+		return val{s: "(" + strings.Join(es, ", ") + ")", t: t}, nil
 	}
 	return val{s: "(" + shape.mk + " " + strings.Join(es, " ") + ")", t: t}, nil
 }
@@ -1034,9 +1521,10 @@ func (f *fctx) expr(e0 ast.Expr, e env) (val, error) {
 				return val{}, f.errf(x, "struct %s used as a value", x.Name)
 			}
 			if b.zero {
-				return val{s: "(o0 O)", t: b.t}, nil
+				z, _ := b.t.zero()
+				return val{s: z, t: b.t, fresh: b.fresh}, nil
 			}
-			return val{s: b.coq, t: b.t, bb: b.bb}, nil
+			return val{s: b.coq, t: b.t, bb: b.bb, fresh: b.fresh}, nil
 		}
 		if x.Name == f.recv && f.recv != "" {
 			return val{}, f.errf(x, "receiver %s used as a value", x.Name)
@@ -1061,7 +1549,7 @@ func (f *fctx) expr(e0 ast.Expr, e env) (val, error) {
 		if id, ok := x.X.(*ast.Ident); ok {
 			if ip, isPkg := f.importOf(id, e); isPkg {
 				if ip == "math" && x.Sel.Name == "Pi" {
-					return val{s: "(opi O)", t: tT, konst: true}, nil
+					return val{s: "(opi O)", t: tT, konst: true, rat: ratPi}, nil
 				}
 				if ip == "math" && x.Sel.Name == "MaxFloat64" {
 					return val{s: "(omaxf O)", t: tT, konst: true}, nil
@@ -1097,6 +1585,31 @@ func (f *fctx) expr(e0 ast.Expr, e env) (val, error) {
 			return val{}, err
 		}
 		lit, ok := x.Index.(*ast.BasicLit)
+		if a.t.k == kList {
+			// xs[i]: indices are in range (Go panics otherwise); the default is never reached then
+			z, okz := a.t.args[0].zero()
+			if !okz {
+				return val{}, f.errf(x, "index into a slice of %s", a.t.args[0].goName())
+			}
+			if ok && lit.Kind == token.INT {
+				n, err := strconv.Atoi(lit.Value)
+				if err != nil || n < 0 {
+					return val{}, f.errf(x, "unsupported index %s", lit.Value)
+				}
+				return elemVal(fmt.Sprintf("(nth %d %s %s)", n, a.s, z), a.t.args[0]), nil
+			}
+			iv, err := f.expr(x.Index, e)
+			if err != nil {
+				return val{}, err
+			}
+			if iv.t.k != kInt {
+				return val{}, f.errf(x, "index of type %s", iv.t.goName())
+			}
+			return elemVal(fmt.Sprintf("(nth (Z.to_nat %s) %s %s)", iv.s, a.s, z), a.t.args[0]), nil
+		}
+		if a.t.k == kIval && ok && lit.Kind == token.INT && (lit.Value == "0" || lit.Value == "1") {
+			return val{s: "(" + map[string]string{"0": "fst", "1": "snd"}[lit.Value] + " " + a.s + ")", t: tT}, nil
+		}
 		size := map[kind]int{kM22: 4, kM33: 9, kM44: 16}[a.t.k]
 		if !ok || lit.Kind != token.INT || size == 0 {
 			return val{}, f.errf(x, "unsupported index expression")
@@ -1122,6 +1635,9 @@ func (f *fctx) expr(e0 ast.Expr, e env) (val, error) {
 			r := val{s: "(- " + v.s + ")", t: tT, konst: v.konst, isInt: v.isInt}
 			if v.rat != nil {
 				r.rat = new(big.Rat).Neg(v.rat)
+			}
+			if !v.konst {
+				r.pos = v.s
 			}
 			return r, nil
 		case x.Op == token.ADD && v.t.k == kT:
@@ -1222,6 +1738,9 @@ func (f *fctx) funcLit(x *ast.FuncLit, e env) (val, error) {
 		return val{}, err
 	}
 	f.results = append(f.results, *t.ret)
+	if err := f.desugar(x.Body); err != nil {
+		return val{}, err
+	}
 	body, err := f.stmts(x.Body.List, inner, nil, "      ")
 	f.results = f.results[:len(f.results)-1]
 	if err != nil {
@@ -1303,11 +1822,17 @@ func (f *fctx) setField(n ast.Node, b *binding, goVar, name string, rhs ast.Expr
 	if err != nil {
 		return "", err
 	}
+	if ft.k == kInt {
+		v, _ = asInt(v)
+	}
 	if !v.t.eq(ft) {
 		return "", f.errf(n, "assignment of %s to field %s.%s of type %s", v.t.goName(), goVar, name, ft.goName())
 	}
+	if v.t.k == kList && !v.fresh {
+		return "", f.errf(n, "assignment of a slice that another variable refers to (aliasing is not modelled)")
+	}
 	c := b.coq + "_" + name
-	b.fields[name] = &binding{coq: c, t: ft, bb: v.bb}
+	b.fields[name] = &binding{coq: c, t: ft, bb: v.bb, fresh: v.fresh}
 	return ind + "let " + c + " := " + v.s + " in\n", nil
 }
 
@@ -1413,8 +1938,124 @@ func (f *fctx) ctorReturn(s *ast.ReturnStmt, e env, want typ, ind string) (strin
 // ---------------------------------------------------------------- statements
 
 // tail: the variables a statement list yields when control falls off its end (a branch of an
-// if statement that assigns them); nil = falling off the end is an error (function body).
-type tail struct{ vars []string }
+// if statement or the body of a loop that assigns them); nil = falling off the end is an error
+// (function body).  A variable is a local "x" or a field "s.f" of a struct under construction.
+type tail struct {
+	vars []string
+	loop bool // the body of a loop: `continue` yields the variables
+}
+
+// desugar rewrites `switch {case c1: ..; default: ..}` and `switch x {case a, b: ..}` into
+// if / else-if chains, in place (cases are tried in order, the default last; Go's switch has no
+// implicit fall-through, and break / fallthrough inside a case are refused).
+func (f *fctx) desugar(b *ast.BlockStmt) error {
+	if b == nil {
+		return nil
+	}
+	for i, st := range b.List {
+		n, err := f.desugarStmt(st)
+		if err != nil {
+			return err
+		}
+		b.List[i] = n
+	}
+	return nil
+}
+
+func (f *fctx) desugarStmt(st ast.Stmt) (ast.Stmt, error) {
+	switch x := st.(type) {
+	case *ast.BlockStmt:
+		return x, f.desugar(x)
+	case *ast.IfStmt:
+		if err := f.desugar(x.Body); err != nil {
+			return nil, err
+		}
+		if x.Else != nil {
+			n, err := f.desugarStmt(x.Else)
+			if err != nil {
+				return nil, err
+			}
+			x.Else = n
+		}
+		return x, nil
+	case *ast.ForStmt:
+		return x, f.desugar(x.Body)
+	case *ast.RangeStmt:
+		return x, f.desugar(x.Body)
+	case *ast.SwitchStmt:
+		if x.Init != nil {
+			return nil, f.errf(x, "switch statement with an init clause")
+		}
+		if x.Tag != nil {
+			// the tag is compared with each case value: it must be a variable or a field (no effects, cheap)
+			switch x.Tag.(type) {
+			case *ast.Ident, *ast.SelectorExpr:
+			default:
+				return nil, f.errf(x, "switch on an expression that is not a variable or a field")
+			}
+		}
+		var def *ast.CaseClause
+		var cases []*ast.CaseClause
+		for _, c := range x.Body.List {
+			cc := c.(*ast.CaseClause)
+			bad := false
+			for _, bs := range cc.Body {
+				ast.Inspect(bs, func(n ast.Node) bool {
+					switch y := n.(type) {
+					case *ast.FuncLit, *ast.ForStmt, *ast.RangeStmt:
+						return false
+					case *ast.BranchStmt:
+						if y.Tok == token.BREAK || y.Tok == token.FALLTHROUGH || y.Tok == token.GOTO {
+							bad = true
+						}
+					}
+					return true
+				})
+			}
+			if bad {
+				return nil, f.errf(cc, "break / fallthrough inside a switch case")
+			}
+			blk := &ast.BlockStmt{Lbrace: cc.Colon, List: cc.Body, Rbrace: cc.End()}
+			if err := f.desugar(blk); err != nil {
+				return nil, err
+			}
+			cc.Body = blk.List
+			if cc.List == nil {
+				if def != nil {
+					return nil, f.errf(cc, "two default clauses")
+				}
+				def = cc
+			} else {
+				cases = append(cases, cc)
+			}
+		}
+		var tailStmt ast.Stmt
+		if def != nil {
+			tailStmt = &ast.BlockStmt{Lbrace: def.Colon, List: def.Body, Rbrace: def.End()}
+		}
+		for i := len(cases) - 1; i >= 0; i-- {
+			cc := cases[i]
+			var cond ast.Expr
+			for _, v := range cc.List {
+				c := v
+				if x.Tag != nil {
+					c = &ast.BinaryExpr{X: x.Tag, OpPos: v.Pos(), Op: token.EQL, Y: v}
+				}
+				if cond == nil {
+					cond = c
+				} else {
+					cond = &ast.BinaryExpr{X: cond, OpPos: v.Pos(), Op: token.LOR, Y: c}
+				}
+			}
+			tailStmt = &ast.IfStmt{If: cc.Pos(), Cond: cond, Body: &ast.BlockStmt{Lbrace: cc.Colon, List: cc.Body, Rbrace: cc.End()}, Else: tailStmt}
+		}
+		if tailStmt == nil {
+			return &ast.EmptyStmt{Semicolon: x.Pos()}, nil
+		}
+		return tailStmt, nil
+	}
+	return st, nil
+}
 
 func stmtList(s ast.Stmt) []ast.Stmt {
 	switch x := s.(type) {
@@ -1434,6 +2075,8 @@ func terminates(list []ast.Stmt) bool {
 	switch x := list[len(list)-1].(type) {
 	case *ast.ReturnStmt:
 		return true
+	case *ast.BranchStmt:
+		return x.Tok == token.CONTINUE && x.Label == nil
 	case *ast.IfStmt:
 		return x.Else != nil && terminates(x.Body.List) && terminates(stmtList(x.Else))
 	}
@@ -1456,14 +2099,49 @@ func containsReturn(list []ast.Stmt) bool {
 	return found
 }
 
-// variables of the enclosing scopes assigned by the list, in order of first assignment
-// (an assignment to a field s.f counts as "s.f": not supported inside branches)
-func assignedOuter(list []ast.Stmt, declared map[string]bool, out *[]string) {
+// the in-place procedure a call statement invokes (a function of this package without results
+// that writes into slice parameters), if it is one
+func (f *fctx) procCall(s ast.Stmt, e env) (*ast.CallExpr, *Def, error) {
+	es, ok := s.(*ast.ExprStmt)
+	if !ok {
+		return nil, nil, nil
+	}
+	c, ok := es.X.(*ast.CallExpr)
+	if !ok {
+		return nil, nil, f.errf(s, "unsupported expression statement")
+	}
+	id, ok := c.Fun.(*ast.Ident)
+	if !ok {
+		return nil, nil, f.errf(s, "unsupported call statement %s", exprString(c.Fun))
+	}
+	if _, local := e[id.Name]; local {
+		return nil, nil, f.errf(s, "call statement of the function value %s", id.Name)
+	}
+	fd, ok := f.p.funcs[id.Name]
+	if !ok || fd.Recv != nil || fd.Type.Results != nil {
+		return nil, nil, f.errf(s, "call statement %s(..): not a procedure of this package", id.Name)
+	}
+	d, err := f.g.translate(f.p, id.Name)
+	if err != nil {
+		return nil, nil, err
+	}
+	if d.mutates == nil {
+		return nil, nil, f.errf(s, "call statement %s(..) without effect", id.Name)
+	}
+	return c, d, nil
+}
+
+// variables of the enclosing scopes assigned by the list, in order of first assignment:
+// "x" (also for x[i] = e and for x passed to an in-place procedure) or "s.f"
+func (f *fctx) assignedOuter(list []ast.Stmt, declared map[string]bool, e env, out *[]string) error {
 	local := map[string]bool{}
 	for k := range declared {
 		local[k] = true
 	}
 	add := func(n string) {
+		if local[n] {
+			return
+		}
 		for _, o := range *out {
 			if o == n {
 				return
@@ -1479,13 +2157,21 @@ func assignedOuter(list []ast.Stmt, declared map[string]bool, out *[]string) {
 				case *ast.Ident:
 					if x.Tok == token.DEFINE {
 						local[id.Name] = true
-					} else if !local[id.Name] {
+					} else {
 						add(id.Name)
+					}
+				case *ast.IndexExpr:
+					if base, ok := id.X.(*ast.Ident); ok {
+						add(base.Name)
+					} else {
+						add(exprString(l))
 					}
 				default:
 					add(exprString(l))
 				}
 			}
+		case *ast.IncDecStmt:
+			add(exprString(x.X))
 		case *ast.DeclStmt:
 			if gd, ok := x.Decl.(*ast.GenDecl); ok {
 				for _, sp := range gd.Specs {
@@ -1497,10 +2183,127 @@ func assignedOuter(list []ast.Stmt, declared map[string]bool, out *[]string) {
 				}
 			}
 		case *ast.IfStmt:
-			assignedOuter(x.Body.List, local, out)
-			assignedOuter(stmtList(x.Else), local, out)
+			inner := local
+			if as, ok := x.Init.(*ast.AssignStmt); ok && as.Tok == token.DEFINE {
+				inner = map[string]bool{}
+				for k := range local {
+					inner[k] = true
+				}
+				for _, l := range as.Lhs {
+					if id, ok := l.(*ast.Ident); ok {
+						inner[id.Name] = true
+					}
+				}
+			}
+			if err := f.assignedOuter(x.Body.List, inner, e, out); err != nil {
+				return err
+			}
+			if err := f.assignedOuter(stmtList(x.Else), inner, e, out); err != nil {
+				return err
+			}
+		case *ast.ForStmt:
+			inner := map[string]bool{}
+			for k := range local {
+				inner[k] = true
+			}
+			if as, ok := x.Init.(*ast.AssignStmt); ok && as.Tok == token.DEFINE {
+				for _, l := range as.Lhs {
+					if id, ok := l.(*ast.Ident); ok {
+						inner[id.Name] = true
+					}
+				}
+			}
+			if err := f.assignedOuter(x.Body.List, inner, e, out); err != nil {
+				return err
+			}
+		case *ast.RangeStmt:
+			inner := map[string]bool{}
+			for k := range local {
+				inner[k] = true
+			}
+			if x.Tok == token.DEFINE {
+				for _, l := range []ast.Expr{x.Key, x.Value} {
+					if id, ok := l.(*ast.Ident); ok {
+						inner[id.Name] = true
+					}
+				}
+			}
+			if err := f.assignedOuter(x.Body.List, inner, e, out); err != nil {
+				return err
+			}
+		case *ast.ExprStmt:
+			c, d, err := f.procCall(x, e)
+			if err != nil {
+				return err
+			}
+			for _, i := range d.mutates {
+				if id, ok := c.Args[i].(*ast.Ident); ok {
+					add(id.Name)
+				} else {
+					add(exprString(c.Args[i]))
+				}
+			}
 		}
 	}
+	return nil
+}
+
+// the binding of an assignable variable: a local "x" or a field "s.f" of a struct under construction
+// (a field that has not been assigned yet holds its zero value)
+func (f *fctx) lookupVar(n ast.Node, e env, key string) (*binding, error) {
+	if i := strings.Index(key, "."); i >= 0 {
+		sb, ok := e[key[:i]]
+		name := key[i+1:]
+		if !ok || sb.fields == nil || strings.ContainsAny(name, ".[(") {
+			return nil, f.errf(n, "assignment to %s: not a variable of this function", key)
+		}
+		if sb.capt {
+			return nil, f.errf(n, "assignment to %s inside a closure", key)
+		}
+		if fb, ok := sb.fields[name]; ok {
+			return fb, nil
+		}
+		t, ok, err := f.g.structField(f.p, sb.structName, name)
+		if err != nil || !ok {
+			return nil, f.errf(n, "field %s.%s: %v", sb.structName, name, err)
+		}
+		if _, hasZero := t.zero(); !hasZero || t.iface || sb.mutated {
+			return nil, f.errf(n, "field %s is assigned on some paths only and has no zero value", key)
+		}
+		fb := &binding{coq: sb.coq + "_" + name, t: t, zero: true, fresh: true}
+		sb.fields[name] = fb
+		return fb, nil
+	}
+	b, ok := e[key]
+	if !ok || b.fields != nil || b.t.iface || strings.ContainsAny(key, "[(*") {
+		return nil, f.errf(n, "assignment to %s: not a plain local variable", key)
+	}
+	if b.capt {
+		return nil, f.errf(n, "assignment to %s, a variable of the enclosing function, inside a closure", key)
+	}
+	return b, nil
+}
+
+func (b *binding) cur() string {
+	if b.zero {
+		z, _ := b.t.zero()
+		return z
+	}
+	return b.coq
+}
+
+func tuple(ss []string) string {
+	if len(ss) == 1 {
+		return ss[0]
+	}
+	return "(" + strings.Join(ss, ", ") + ")"
+}
+
+func pattern(ss []string) string {
+	if len(ss) == 1 {
+		return ss[0]
+	}
+	return "'(" + strings.Join(ss, ", ") + ")"
 }
 
 func declares(list []ast.Stmt) bool {
@@ -1533,6 +2336,183 @@ func sameVars(a, b []string) bool {
 	return true
 }
 
+// does the expression read one of the variables ("x" or "s.f")?
+func mentions(x ast.Expr, vars []string) bool {
+	found := false
+	ast.Inspect(x, func(n ast.Node) bool {
+		switch y := n.(type) {
+		case *ast.SelectorExpr:
+			for _, v := range vars {
+				if exprString(y) == v {
+					found = true
+				}
+			}
+		case *ast.Ident:
+			for _, v := range vars {
+				if y.Name == v {
+					found = true
+				}
+			}
+		}
+		return true
+	})
+	return found
+}
+
+// loop translates
+//
+//	for _, x := range xs {..}   -> fold_left (fun st x => ..) xs st0
+//	for i := range xs {..}      -> range_loop xs 0 (fun i _ st => ..) st0
+//	for i, x := range xs {..}   -> range_loop xs 0 (fun i x st => ..) st0
+//	for i := 0; i < n; i++ {..} -> count_loop (Z.to_nat n) 0 (fun i st => ..) st0
+//
+// where st is the tuple of the variables of the enclosing scopes the body assigns (Num/Loop.v).
+// The range expression / the bound is evaluated once, before the loop (Go re-evaluates the bound:
+// it must not depend on anything the body assigns).
+func (f *fctx) loop(st ast.Stmt, rest []ast.Stmt, e env, tl *tail, ind string) (string, error) {
+	var body []ast.Stmt
+	loopVars := map[string]bool{}
+	switch s := st.(type) {
+	case *ast.RangeStmt:
+		if s.Tok != token.DEFINE {
+			return "", f.errf(s, "range loop without := variables")
+		}
+		for _, l := range []ast.Expr{s.Key, s.Value} {
+			if l == nil {
+				continue
+			}
+			id, ok := l.(*ast.Ident)
+			if !ok {
+				return "", f.errf(s, "unsupported range variable")
+			}
+			loopVars[id.Name] = true
+		}
+		body = s.Body.List
+	case *ast.ForStmt:
+		body = s.Body.List
+	}
+	var vars []string
+	if err := f.assignedOuter(body, loopVars, e, &vars); err != nil {
+		return "", err
+	}
+	if len(vars) == 0 {
+		return "", f.errf(st, "loop without effect")
+	}
+	var names, init []string
+	for _, v := range vars {
+		b, err := f.lookupVar(st, e, v)
+		if err != nil {
+			return "", err
+		}
+		names = append(names, b.coq)
+		init = append(init, b.cur())
+	}
+	inner := e.clone()
+	for _, v := range vars {
+		b, _ := f.lookupVar(st, inner, v)
+		b.zero = false
+	}
+	var head, lam string
+	switch s := st.(type) {
+	case *ast.RangeStmt:
+		xs, err := f.expr(s.X, e)
+		if err != nil {
+			return "", err
+		}
+		if xs.t.k != kList {
+			return "", f.errf(s, "range over %s", xs.t.goName())
+		}
+		key, _ := s.Key.(*ast.Ident)
+		val, _ := s.Value.(*ast.Ident)
+		if key == nil || (key.Name == "_" && (val == nil || val.Name == "_")) {
+			return "", f.errf(s, "range loop without variables")
+		}
+		if val != nil && val.Name != "_" && mentions(s.X, vars) {
+			return "", f.errf(s, "range loop with a value variable over a slice the body modifies")
+		}
+		xname := "_"
+		if val != nil && val.Name != "_" {
+			xname = coqIdent(val.Name)
+			ev := elemVal(xname, xs.t.args[0])
+			inner[val.Name] = &binding{coq: ev.s, t: ev.t, bb: ev.bb}
+		}
+		if key.Name == "_" {
+			head = "fold_left (fun " + pattern(names) + " " + xname + " =>"
+			lam = xs.s
+		} else {
+			iname := coqIdent(key.Name)
+			inner[key.Name] = &binding{coq: iname, t: tInt}
+			head = "range_loop " + xs.s + " 0%Z (fun " + iname + " " + xname + " " + pattern(names) + " =>"
+		}
+	case *ast.ForStmt:
+		// for i := 0; i < n; i++
+		as, ok := s.Init.(*ast.AssignStmt)
+		var iv *ast.Ident
+		if ok && as.Tok == token.DEFINE && len(as.Lhs) == 1 && len(as.Rhs) == 1 {
+			iv, _ = as.Lhs[0].(*ast.Ident)
+		}
+		lit, _ := func() (*ast.BasicLit, bool) {
+			if iv == nil {
+				return nil, false
+			}
+			l, ok := as.Rhs[0].(*ast.BasicLit)
+			return l, ok
+		}()
+		cond, _ := s.Cond.(*ast.BinaryExpr)
+		post, _ := s.Post.(*ast.IncDecStmt)
+		okForm := iv != nil && iv.Name != "_" && lit != nil && lit.Kind == token.INT && lit.Value == "0" &&
+			cond != nil && cond.Op == token.LSS && post != nil && post.Tok == token.INC
+		if okForm {
+			ci, ok1 := cond.X.(*ast.Ident)
+			pi, ok2 := post.X.(*ast.Ident)
+			okForm = ok1 && ok2 && ci.Name == iv.Name && pi.Name == iv.Name
+		}
+		if !okForm {
+			return "", f.errf(s, "unsupported for statement (only `for i := 0; i < n; i++`)")
+		}
+		if mentions(cond.Y, append([]string{iv.Name}, vars...)) {
+			return "", f.errf(s, "the loop bound depends on a variable the loop assigns")
+		}
+		bound, err := f.expr(cond.Y, e)
+		if err != nil {
+			return "", err
+		}
+		bound, isInt := asInt(bound)
+		if !isInt {
+			return "", f.errf(s, "loop bound of type %s", bound.t.goName())
+		}
+		for _, v := range vars {
+			if v == iv.Name {
+				return "", f.errf(s, "the loop body assigns the loop counter")
+			}
+		}
+		iname := coqIdent(iv.Name)
+		inner[iv.Name] = &binding{coq: iname, t: tInt}
+		head = "count_loop (Z.to_nat " + bound.s + ") 0%Z (fun " + iname + " " + pattern(names) + " =>"
+	}
+	b, err := f.stmts(body, inner, &tail{vars: vars, loop: true}, ind+"      ")
+	if err != nil {
+		return "", err
+	}
+	for _, v := range vars {
+		ob, _ := f.lookupVar(st, e, v)
+		ob.zero = false
+	}
+	call := ind + "  " + head + "\n" + b + ")\n" + ind + "    "
+	if lam != "" {
+		call += lam + " "
+	}
+	call += tuple(init)
+	if len(rest) == 0 && tl != nil && sameVars(tl.vars, vars) {
+		return call, nil
+	}
+	r, err := f.stmts(rest, e, tl, ind)
+	if err != nil {
+		return "", err
+	}
+	return ind + "let " + pattern(names) + " :=\n" + call + " in\n" + r, nil
+}
+
 // stmts translates a statement list into one Gallina expression; every line is indented by ind.
 func (f *fctx) stmts(list []ast.Stmt, e env, tl *tail, ind string) (string, error) {
 	if len(list) == 0 {
@@ -1541,17 +2521,13 @@ func (f *fctx) stmts(list []ast.Stmt, e env, tl *tail, ind string) (string, erro
 		}
 		var vs []string
 		for _, v := range tl.vars {
-			b := e[v]
-			if b.zero {
-				vs = append(vs, "(o0 O)")
-			} else {
-				vs = append(vs, b.coq)
+			b, err := f.lookupVar(nil, e, v)
+			if err != nil {
+				return "", err
 			}
+			vs = append(vs, b.cur())
 		}
-		if len(vs) == 1 {
-			return ind + vs[0], nil
-		}
-		return ind + "(" + strings.Join(vs, ", ") + ")", nil
+		return ind + tuple(vs), nil
 	}
 	st, rest := list[0], list[1:]
 	last := func(vars ...string) bool { return len(rest) == 0 && tl != nil && sameVars(tl.vars, vars) }
@@ -1570,16 +2546,112 @@ func (f *fctx) stmts(list []ast.Stmt, e env, tl *tail, ind string) (string, erro
 				return "", f.errf(s, "var declaration with initial values (use :=)")
 			}
 			t, err := f.goType(vs.Type)
-			if err != nil || t.k != kT {
-				return "", f.errf(s, "var declaration of a non-float64")
+			if err != nil {
+				return "", f.errf(s, "%v", err)
+			}
+			if _, ok := t.zero(); !ok || t.iface || t.k == kFn {
+				return "", f.errf(s, "var declaration of type %s", t.goName())
 			}
 			for _, n := range vs.Names {
-				e[n.Name] = &binding{coq: coqIdent(n.Name), t: tT, zero: true}
+				e[n.Name] = &binding{coq: coqIdent(n.Name), t: t, zero: true, fresh: true}
 			}
 		}
 		return f.stmts(rest, e, tl, ind)
 
+	case *ast.ForStmt, *ast.RangeStmt:
+		return f.loop(st, rest, e, tl, ind)
+
+	case *ast.BranchStmt:
+		// continue at the top level of a loop body (or in an `if .. { ..; continue }` there): this
+		// iteration ends with the current values of the variables
+		if s.Tok != token.CONTINUE || s.Label != nil || tl == nil || !tl.loop {
+			return "", f.errf(s, "unsupported %s statement (only `continue` directly in a loop body)", s.Tok)
+		}
+		if len(rest) != 0 {
+			return "", f.errf(rest[0], "statement after continue")
+		}
+		return f.stmts(nil, e, tl, ind)
+
+	case *ast.ExprStmt:
+		// mulVertices2(v, step): a procedure of this package writing into its slice argument
+		c, d, err := f.procCall(s, e)
+		if err != nil {
+			return "", err
+		}
+		ss, err := f.args(c, d.Key, d.params, c.Args, e)
+		if err != nil {
+			return "", err
+		}
+		var names, keys []string
+		for _, i := range d.mutates {
+			id, ok := c.Args[i].(*ast.Ident)
+			if !ok {
+				return "", f.errf(s, "%s(..): the slice argument it modifies must be a local variable", d.Key)
+			}
+			b, err := f.lookupVar(s, e, id.Name)
+			if err != nil {
+				return "", err
+			}
+			if !b.fresh {
+				return "", f.errf(s, "%s(..) modifies the slice %s, which another variable may refer to", d.Key, id.Name)
+			}
+			b.zero = false
+			names, keys = append(names, b.coq), append(keys, id.Name)
+		}
+		callStr := app(d.Name, ss)
+		if last(keys...) {
+			return ind + callStr, nil
+		}
+		r, err := f.stmts(rest, e, tl, ind)
+		if err != nil {
+			return "", err
+		}
+		return ind + "let " + pattern(names) + " := " + callStr + " in\n" + r, nil
+
 	case *ast.AssignStmt:
+		if len(s.Lhs) > 1 && len(s.Rhs) == 1 {
+			// a, b := f(..): the results of a translated function
+			if s.Tok != token.ASSIGN && s.Tok != token.DEFINE {
+				return "", f.errf(s, "unsupported tuple assignment operator %s", s.Tok)
+			}
+			v, err := f.expr(s.Rhs[0], e)
+			if err != nil {
+				return "", err
+			}
+			if v.t.k != kTuple || len(v.t.args) != len(s.Lhs) {
+				return "", f.errf(s, "assignment of %s to %d variables", v.t.goName(), len(s.Lhs))
+			}
+			var names []string
+			seen := map[string]bool{}
+			for i, l := range s.Lhs {
+				id, ok := l.(*ast.Ident)
+				if !ok || seen[id.Name] {
+					return "", f.errf(s, "unsupported tuple assignment target %s", exprString(l))
+				}
+				if id.Name == "_" {
+					names = append(names, "_")
+					continue
+				}
+				seen[id.Name] = true
+				b, exists := e[id.Name]
+				if s.Tok == token.DEFINE && !exists {
+					b = &binding{coq: coqIdent(id.Name), t: v.t.args[i]}
+					e[id.Name] = b
+				} else if !exists || b.fields != nil || b.capt || b.t.iface {
+					return "", f.errf(s, "assignment to %s, which is not a plain local variable of this function", id.Name)
+				}
+				if !b.t.eq(v.t.args[i]) {
+					return "", f.errf(s, "assignment of %s to %s %s", v.t.args[i].goName(), b.t.goName(), id.Name)
+				}
+				b.zero, b.fresh = false, v.t.args[i].k == kList
+				names = append(names, b.coq)
+			}
+			r, err := f.stmts(rest, e, tl, ind)
+			if err != nil {
+				return "", err
+			}
+			return ind + "let '(" + strings.Join(names, ", ") + ") := " + v.s + " in\n" + r, nil
+		}
 		if len(s.Lhs) != len(s.Rhs) {
 			return "", f.errf(s, "unsupported assignment of a multi-valued expression")
 		}
@@ -1606,19 +2678,25 @@ func (f *fctx) stmts(list []ast.Stmt, e env, tl *tail, ind string) (string, erro
 				seen[id.Name] = true
 				b, exists := e[id.Name]
 				if s.Tok == token.DEFINE && !exists {
+					if vs[i].konst && vs[i].isInt {
+						vs[i], _ = asInt(vs[i])
+					}
 					b = &binding{coq: coqIdent(id.Name), t: vs[i].t}
 					e[id.Name] = b
 				} else if !exists || b.fields != nil || b.capt {
 					return "", f.errf(s, "assignment to %s, which is not a plain local variable of this function", id.Name)
 				}
+				if b.t.k == kInt {
+					vs[i], _ = asInt(vs[i])
+				}
 				if !b.t.eq(vs[i].t) {
 					return "", f.errf(s, "assignment of %s to %s %s", vs[i].t.goName(), b.t.goName(), id.Name)
 				}
-				b.zero, b.bb = false, vs[i].bb
+				if vs[i].t.k == kList && !vs[i].fresh {
+					return "", f.errf(s, "assignment of a slice that another variable refers to (aliasing is not modelled)")
+				}
+				b.zero, b.bb, b.fresh = false, vs[i].bb, vs[i].fresh
 				names, rhs = append(names, b.coq), append(rhs, vs[i].s)
-			}
-			if tl != nil {
-				return "", f.errf(s, "tuple assignment inside a branch")
 			}
 			r, err := f.stmts(rest, e, tl, ind)
 			if err != nil {
@@ -1636,18 +2714,82 @@ func (f *fctx) stmts(list []ast.Stmt, e env, tl *tail, ind string) (string, erro
 			if b == nil || b.fields == nil || s.Tok != token.ASSIGN || b.capt {
 				return "", f.errf(s, "unsupported assignment target %s", exprString(s.Lhs[0]))
 			}
-			if tl != nil {
-				return "", f.errf(s, "field assignment inside a branch")
-			}
 			l, err := f.setField(s, b, id.Name, sel.Sel.Name, s.Rhs[0], e, ind)
 			if err != nil {
 				return "", err
+			}
+			if last(id.Name + "." + sel.Sel.Name) {
+				// `let s_f := v in` -> v
+				return ind + strings.TrimSuffix(strings.TrimPrefix(l, ind+"let "+b.coq+"_"+sel.Sel.Name+" := "), " in\n"), nil
 			}
 			r, err := f.stmts(rest, e, tl, ind)
 			if err != nil {
 				return "", err
 			}
 			return l + r, nil
+		}
+		if ix, ok := s.Lhs[0].(*ast.IndexExpr); ok {
+			// xs[i] = e on a local slice nothing else refers to
+			id, ok := ix.X.(*ast.Ident)
+			if !ok || s.Tok != token.ASSIGN {
+				return "", f.errf(s, "unsupported assignment target %s", exprString(s.Lhs[0]))
+			}
+			b, err := f.lookupVar(s, e, id.Name)
+			if err != nil {
+				return "", err
+			}
+			if b.t.k != kList {
+				return "", f.errf(s, "index assignment into %s", b.t.goName())
+			}
+			if !b.fresh {
+				return "", f.errf(s, "index assignment into the slice %s, which another variable may refer to", id.Name)
+			}
+			var idx string
+			if lit, ok := ix.Index.(*ast.BasicLit); ok && lit.Kind == token.INT {
+				n, err := strconv.Atoi(lit.Value)
+				if err != nil || n < 0 {
+					return "", f.errf(s, "unsupported index %s", lit.Value)
+				}
+				idx = strconv.Itoa(n)
+			} else {
+				iv, err := f.expr(ix.Index, e)
+				if err != nil {
+					return "", err
+				}
+				if iv.t.k != kInt {
+					return "", f.errf(s, "index of type %s", iv.t.goName())
+				}
+				idx = "(Z.to_nat " + iv.s + ")"
+			}
+			var v val
+			if cl, ok := s.Rhs[0].(*ast.CompositeLit); ok && cl.Type == nil {
+				v, err = f.composite(cl, &b.t.args[0], e)
+			} else {
+				v, err = f.expr(s.Rhs[0], e)
+			}
+			if err != nil {
+				return "", err
+			}
+			if b.t.args[0].k == kInt {
+				v, _ = asInt(v)
+			}
+			if !v.t.eq(b.t.args[0]) {
+				return "", f.errf(s, "assignment of %s to an element of %s", v.t.goName(), b.t.goName())
+			}
+			es, err := f.elemString(s, v)
+			if err != nil {
+				return "", err
+			}
+			upd := "(list_set " + b.cur() + " " + idx + " " + es + ")"
+			b.zero = false
+			if last(id.Name) {
+				return ind + upd, nil
+			}
+			r, err := f.stmts(rest, e, tl, ind)
+			if err != nil {
+				return "", err
+			}
+			return ind + "let " + b.coq + " := " + upd + " in\n" + r, nil
 		}
 		id, ok := s.Lhs[0].(*ast.Ident)
 		if !ok || id.Name == "_" {
@@ -1679,7 +2821,13 @@ func (f *fctx) stmts(list []ast.Stmt, e env, tl *tail, ind string) (string, erro
 		}
 		switch {
 		case s.Tok == token.DEFINE:
-			e[id.Name] = &binding{coq: coqIdent(id.Name), t: v.t, bb: v.bb}
+			if v.konst && v.isInt {
+				v, _ = asInt(v) // x := 0 declares an int
+			}
+			if v.t.k == kList && !v.fresh {
+				return "", f.errf(s, "assignment of a slice that another variable refers to (aliasing is not modelled)")
+			}
+			e[id.Name] = &binding{coq: coqIdent(id.Name), t: v.t, bb: v.bb, fresh: v.fresh}
 		case s.Tok == token.ASSIGN || opAssign[s.Tok] != 0:
 			b, ok := e[id.Name]
 			if !ok || b.fields != nil {
@@ -1689,13 +2837,13 @@ func (f *fctx) stmts(list []ast.Stmt, e env, tl *tail, ind string) (string, erro
 				return "", f.errf(s, "assignment to %s, a variable of the enclosing function, inside a closure", id.Name)
 			}
 			if op, isOp := opAssign[s.Tok]; isOp {
-				cur := val{s: b.coq, t: b.t}
-				if b.zero {
-					cur.s = "(o0 O)"
-				}
+				cur := val{s: b.cur(), t: b.t}
 				if v, err = f.binary(s, op, cur, v); err != nil {
 					return "", err
 				}
+			}
+			if b.t.k == kInt {
+				v, _ = asInt(v)
 			}
 			if !b.t.eq(v.t) {
 				return "", f.errf(s, "assignment of %s to %s %s", v.t.goName(), b.t.goName(), id.Name)
@@ -1703,7 +2851,10 @@ func (f *fctx) stmts(list []ast.Stmt, e env, tl *tail, ind string) (string, erro
 			if b.t.iface {
 				return "", f.errf(s, "re-assignment of the SDF variable %s", id.Name)
 			}
-			b.zero = false
+			if v.t.k == kList && !v.fresh {
+				return "", f.errf(s, "assignment of a slice that another variable refers to (aliasing is not modelled)")
+			}
+			b.zero, b.fresh = false, v.fresh
 		default:
 			return "", f.errf(s, "unsupported assignment operator %s", s.Tok)
 		}
@@ -1732,6 +2883,36 @@ func (f *fctx) stmts(list []ast.Stmt, e env, tl *tail, ind string) (string, erro
 		if want.k == kObjOpt {
 			return f.ctorReturn(s, e, want, ind)
 		}
+		if want.k == kTuple {
+			var parts []string
+			if len(s.Results) == 0 && len(f.results) == 1 && len(f.named) == len(want.args) {
+				// bare return: the named results
+				for _, nm := range f.named {
+					parts = append(parts, e[nm].cur())
+				}
+				return ind + tuple(parts), nil
+			}
+			if len(s.Results) != len(want.args) {
+				return "", f.errf(s, "return of %d values, expected %d", len(s.Results), len(want.args))
+			}
+			for i, r := range s.Results {
+				v, err := f.expr(r, e)
+				if err != nil {
+					return "", err
+				}
+				if want.args[i].k == kInt {
+					v, _ = asInt(v)
+				}
+				if !v.t.eq(want.args[i]) {
+					return "", f.errf(s, "result %d has type %s, expected %s", i+1, v.t.goName(), want.args[i].goName())
+				}
+				parts = append(parts, v.s)
+			}
+			return ind + tuple(parts), nil
+		}
+		if len(s.Results) == 0 && len(f.results) == 1 && len(f.named) == 1 {
+			return ind + e[f.named[0]].cur(), nil
+		}
 		if len(s.Results) != 1 {
 			return "", f.errf(s, "return of %d values", len(s.Results))
 		}
@@ -1745,6 +2926,9 @@ func (f *fctx) stmts(list []ast.Stmt, e env, tl *tail, ind string) (string, erro
 		if err != nil {
 			return "", err
 		}
+		if want.k == kInt {
+			v, _ = asInt(v)
+		}
 		if !v.t.eq(want) {
 			return "", f.errf(s, "return of %s, expected %s", v.t.goName(), want.goName())
 		}
@@ -1752,7 +2936,23 @@ func (f *fctx) stmts(list []ast.Stmt, e env, tl *tail, ind string) (string, erro
 
 	case *ast.IfStmt:
 		if s.Init != nil {
-			return "", f.errf(s, "if statement with an init clause")
+			// if x := e; c {..}: x is declared just before the if (it must not shadow a variable in scope)
+			as, ok := s.Init.(*ast.AssignStmt)
+			if !ok || as.Tok != token.DEFINE {
+				return "", f.errf(s, "if statement with an init clause that is not `x := e`")
+			}
+			for _, l := range as.Lhs {
+				id, ok := l.(*ast.Ident)
+				if !ok {
+					return "", f.errf(s, "unsupported init clause")
+				}
+				if _, shadow := e[id.Name]; shadow && id.Name != "_" {
+					return "", f.errf(s, "the init clause of the if statement shadows the variable %s", id.Name)
+				}
+			}
+			plain := *s
+			plain.Init = nil
+			return f.stmts(append([]ast.Stmt{as, &plain}, rest...), e, tl, ind)
 		}
 		c, err := f.expr(s.Cond, e)
 		if err != nil {
@@ -1767,38 +2967,39 @@ func (f *fctx) stmts(list []ast.Stmt, e env, tl *tail, ind string) (string, erro
 		switch {
 		case tt || et:
 			// `if c { ...; return e }` followed by the rest: the rest is the other branch
-			if tl != nil {
-				return "", f.errf(s, "return inside a block that can also fall through")
+			// (in a loop body: `if c { ...; continue }`; every path then yields the loop variables)
+			if tl != nil && !tl.loop {
+				return "", f.errf(s, "return / continue inside a block that can also fall through")
 			}
 			var a, b string
 			if tt && et {
 				if len(rest) != 0 {
 					return "", f.errf(rest[0], "statement after return")
 				}
-				if a, err = branch(thenL, e.clone(), nil); err != nil {
+				if a, err = branch(thenL, e.clone(), tl); err != nil {
 					return "", err
 				}
-				if b, err = f.stmts(elseL, e.clone(), nil, ind); err != nil {
+				if b, err = f.stmts(elseL, e.clone(), tl, ind); err != nil {
 					return "", err
 				}
 			} else if tt {
 				if len(elseL) != 0 && declares(elseL) && len(rest) != 0 {
 					return "", f.errf(s, "else block declaring variables before fall-through code")
 				}
-				if a, err = branch(thenL, e.clone(), nil); err != nil {
+				if a, err = branch(thenL, e.clone(), tl); err != nil {
 					return "", err
 				}
-				if b, err = f.stmts(append(append([]ast.Stmt{}, elseL...), rest...), e, nil, ind); err != nil {
+				if b, err = f.stmts(append(append([]ast.Stmt{}, elseL...), rest...), e, tl, ind); err != nil {
 					return "", err
 				}
 			} else {
 				if declares(thenL) && len(rest) != 0 {
 					return "", f.errf(s, "then block declaring variables before fall-through code")
 				}
-				if b, err = f.stmts(elseL, e.clone(), nil, ind); err != nil {
+				if b, err = f.stmts(elseL, e.clone(), tl, ind); err != nil {
 					return "", err
 				}
-				if a, err = branch(append(append([]ast.Stmt{}, thenL...), rest...), e, nil); err != nil {
+				if a, err = branch(append(append([]ast.Stmt{}, thenL...), rest...), e, tl); err != nil {
 					return "", err
 				}
 			}
@@ -1812,17 +3013,21 @@ func (f *fctx) stmts(list []ast.Stmt, e env, tl *tail, ind string) (string, erro
 				return "", f.errf(s, "if statement that returns on some paths and falls through on others")
 			}
 			var vars []string
-			assignedOuter(thenL, nil, &vars)
-			assignedOuter(elseL, nil, &vars)
+			if err := f.assignedOuter(thenL, nil, e, &vars); err != nil {
+				return "", err
+			}
+			if err := f.assignedOuter(elseL, nil, e, &vars); err != nil {
+				return "", err
+			}
 			if len(vars) == 0 {
 				return "", f.errf(s, "if statement without effect")
 			}
 			for _, v := range vars {
-				if b, ok := e[v]; !ok || b.fields != nil || b.t.iface || b.capt {
-					return "", f.errf(s, "assignment to %s inside a branch: not a plain local variable", v)
+				if _, err := f.lookupVar(s, e, v); err != nil {
+					return "", err
 				}
 			}
-			t := &tail{vars}
+			t := &tail{vars: vars}
 			a, err := f.stmts(thenL, e.clone(), t, ind+"    ")
 			if err != nil {
 				return "", err
@@ -1843,8 +3048,9 @@ func (f *fctx) stmts(list []ast.Stmt, e env, tl *tail, ind string) (string, erro
 			}
 			var names []string
 			for _, v := range vars {
-				e[v].zero = false
-				names = append(names, e[v].coq)
+				vb, _ := f.lookupVar(s, e, v)
+				vb.zero = false
+				names = append(names, vb.coq)
 			}
 			if last(vars...) {
 				// re-indent: a and b were laid out for the `let` form
@@ -1854,11 +3060,7 @@ func (f *fctx) stmts(list []ast.Stmt, e env, tl *tail, ind string) (string, erro
 			if err != nil {
 				return "", err
 			}
-			pat := names[0]
-			if len(names) > 1 {
-				pat = "'(" + strings.Join(names, ", ") + ")"
-			}
-			return ind + "let " + pat + " :=\n" + ifx(ind+"  ") + " in\n" + r, nil
+			return ind + "let " + pattern(names) + " :=\n" + ifx(ind+"  ") + " in\n" + r, nil
 		}
 	}
 	return "", f.errf(st, "unsupported statement %T", st)
@@ -1869,7 +3071,7 @@ func (f *fctx) stmts(list []ast.Stmt, e env, tl *tail, ind string) (string, erro
 func (g *gen) constant(p *pkg, name string) (val, error) {
 	id := p.name + "." + name
 	if d, ok := g.defs[id]; ok {
-		return val{s: d.Name, t: tT, konst: true}, nil
+		return val{s: d.Name, t: tT, konst: true, rat: d.rat}, nil
 	}
 	ex := p.consts[name]
 	if ex == nil {
@@ -1890,7 +3092,7 @@ func (g *gen) constant(p *pkg, name string) (val, error) {
 	}
 	pos := g.fset.Position(ex.Pos())
 	d := &Def{Pkg: p.name, Key: name, Name: defName(p.name, name), Pos: fmt.Sprintf("%s:%d", f.file.rel, pos.Line),
-		Ret: "T O", ret: tT, isConst: true}
+		Ret: "T O", ret: tT, isConst: true, rat: v.rat}
 	d.text = fmt.Sprintf("  (* %s: const %s *)\n  Definition %s : T O := %s.\n", d.Pos, name, d.Name, v.s)
 	g.defs[id] = d
 	g.order = append(g.order, d)
@@ -1935,6 +3137,14 @@ func (g *gen) translate(p *pkg, key string) (*Def, error) {
 			e[names[0].Name] = &binding{coq: c, t: rt}
 			params = append(params, Param{c, rt.coq()})
 			ptypes = append(ptypes, rt)
+		case p.structs[rn] != nil && fd.Type.Results == nil:
+			// a mutator (SetMin, SetMax, SetExtrude): the receiver is a struct whose fields are written;
+			// the definition returns the new values of the fields it assigns
+			if _, ptr := recvTypeName(fd); !ptr || len(names) != 1 {
+				return nil, f.errf(fd, "method without results on a value receiver")
+			}
+			e[names[0].Name] = &binding{coq: "s", structName: rn, fields: map[string]*binding{}, mutated: true}
+			f.mutator = names[0].Name
 		case p.structs[rn] != nil:
 			f.recvStruct = rn
 			if len(names) == 1 {
@@ -1949,18 +3159,105 @@ func (g *gen) translate(p *pkg, key string) (*Def, error) {
 		return nil, err
 	}
 	rt, isCtor := g.ctorResult(p, f.file, fd)
-	if !isCtor {
-		if fd.Type.Results == nil || len(fd.Type.Results.List) != 1 || len(fd.Type.Results.List[0].Names) != 0 {
-			return nil, f.errf(fd, "expected exactly one unnamed result")
+	var mutates []int
+	var procTail *tail
+	if f.mutator != "" {
+		var vars []string
+		if err := f.assignedOuter(fd.Body.List, nil, e, &vars); err != nil {
+			return nil, err
 		}
-		if rt, err = f.goType(fd.Type.Results.List[0].Type); err != nil {
-			return nil, f.errf(fd, "%v", err)
+		if len(vars) == 0 {
+			return nil, f.errf(fd, "mutator without effect")
+		}
+		var rts []typ
+		for _, v := range vars {
+			if !strings.HasPrefix(v, f.mutator+".") || strings.Count(v, ".") != 1 {
+				return nil, f.errf(fd, "mutator assigning %s, which is not a field of the receiver", v)
+			}
+			t, ok, err := g.structField(p, e[f.mutator].structName, v[len(f.mutator)+1:])
+			if err != nil || !ok {
+				return nil, f.errf(fd, "field %s: %v", v, err)
+			}
+			if t.iface {
+				return nil, f.errf(fd, "mutator assigning the SDF field %s", v)
+			}
+			rts = append(rts, t)
+		}
+		rt = rts[0]
+		if len(rts) > 1 {
+			rt = typ{k: kTuple, args: rts}
+		}
+		procTail = &tail{vars: vars}
+	} else if fd.Type.Results == nil && fd.Recv == nil {
+		// a procedure: it must write into (exactly one of) its slice parameters; the definition
+		// returns the final value of that slice
+		var vars []string
+		if err := f.assignedOuter(fd.Body.List, nil, e, &vars); err != nil {
+			return nil, err
+		}
+		if len(vars) != 1 {
+			return nil, f.errf(fd, "procedure assigning %d outer variables (expected one slice parameter)", len(vars))
+		}
+		idx := 0
+		for _, fl := range fd.Type.Params.List {
+			for _, nm := range fl.Names {
+				if nm.Name == vars[0] {
+					mutates = []int{idx}
+				}
+				idx++
+			}
+		}
+		b := e[vars[0]]
+		if mutates == nil || b == nil || b.t.k != kList {
+			return nil, f.errf(fd, "procedure assigning %s, which is not a slice parameter", vars[0])
+		}
+		b.fresh = true // aliasing is the caller's concern (checked at the call)
+		rt, procTail = b.t, &tail{vars: vars}
+	} else if !isCtor {
+		// one result, or several (a tuple); named results are local variables holding their zero value
+		if fd.Type.Results == nil {
+			return nil, f.errf(fd, "method without a result")
+		}
+		var rts []typ
+		for _, r := range fd.Type.Results.List {
+			t, err := f.goType(r.Type)
+			if err != nil {
+				return nil, f.errf(fd, "%v", err)
+			}
+			if t.iface {
+				return nil, f.errf(fd, "an SDF among several results")
+			}
+			n := len(r.Names)
+			if n == 0 {
+				n = 1
+			}
+			for i := 0; i < n; i++ {
+				rts = append(rts, t)
+			}
+			for _, nm := range r.Names {
+				if _, ok := t.zero(); !ok || t.k == kFn {
+					return nil, f.errf(fd, "named result of type %s", t.goName())
+				}
+				if _, dup := e[nm.Name]; dup {
+					return nil, f.errf(fd, "named result %s shadows a parameter", nm.Name)
+				}
+				e[nm.Name] = &binding{coq: coqIdent(nm.Name), t: t, zero: true, fresh: true}
+				f.named = append(f.named, nm.Name)
+			}
+		}
+		if len(rts) == 1 {
+			rt = rts[0]
+		} else {
+			rt = typ{k: kTuple, args: rts}
 		}
 	} else if fd.Recv != nil {
 		return nil, f.errf(fd, "method returning an SDF")
 	}
 	f.results = []typ{rt}
-	body, err := f.stmts(fd.Body.List, e, nil, "    ")
+	if err := f.desugar(fd.Body); err != nil {
+		return nil, err
+	}
+	body, err := f.stmts(fd.Body.List, e, procTail, "    ")
 	if err != nil {
 		return nil, err
 	}
@@ -1988,7 +3285,7 @@ func (g *gen) translate(p *pkg, key string) (*Def, error) {
 	}
 	pos := g.fset.Position(fd.Pos())
 	d := &Def{Pkg: p.name, Key: key, Name: defName(p.name, key), Pos: fmt.Sprintf("%s:%d", f.file.rel, pos.Line),
-		Params: params, Ret: rt.coq(), ret: rt, params: ptypes, fields: fields}
+		Params: params, Ret: rt.coq(), ret: rt, params: ptypes, fields: fields, mutates: mutates}
 	goSig := "func " + key
 	if fd.Recv != nil {
 		rn, ptr := recvTypeName(fd)
@@ -2029,8 +3326,10 @@ func Translate(repo string) (*Result, error) {
 		{"v2", modPath + "vec/v2", []string{"vec/v2/v2.go"}},
 		{"v3", modPath + "vec/v3", []string{"vec/v3/v3.go"}},
 		{"p2", modPath + "vec/p2", []string{"vec/p2/p2.go"}},
+		{"v2i", modPath + "vec/v2i", []string{"vec/v2i/v2i.go"}},
+		{"v3i", modPath + "vec/v3i", []string{"vec/v3i/v3i.go"}},
 		{"conv", modPath + "vec/conv", []string{"vec/conv/conv.go"}},
-		{"sdf", modPath + "sdf", []string{"sdf/utils.go", "sdf/sdf2.go", "sdf/sdf3.go", "sdf/box2.go", "sdf/box3.go", "sdf/matrix.go"}},
+		{"sdf", modPath + "sdf", []string{"sdf/utils.go", "sdf/sdf2.go", "sdf/sdf3.go", "sdf/box2.go", "sdf/box3.go", "sdf/matrix.go", "sdf/line.go"}},
 	} {
 		p, err := loadPkg(g.fset, repo, s.name, s.path, s.files...)
 		if err != nil {
@@ -2041,6 +3340,10 @@ func Translate(repo string) (*Result, error) {
 	// sdf/matrix.go functions translated by harness/exprgen into Generated/MatrixExpr.v
 	g.externs = map[string]extern{
 		"sdf.Rotate":          {"mk_rotate", []typ{tT}, tM22},
+		"sdf.Identity2d":      {"mk_identity2d", nil, tM33},
+		"sdf.Identity3d":      {"mk_identity3d", nil, tM44},
+		"sdf.M33.Mul":         {"m33_mul", []typ{tM33, tM33}, tM33},
+		"sdf.M44.Mul":         {"m44_mul", []typ{tM44, tM44}, tM44},
 		"sdf.Scale2d":         {"mk_scale2d", []typ{tV2}, tM33},
 		"sdf.Scale3d":         {"mk_scale3d", []typ{tV3}, tM44},
 		"sdf.M22.MulPosition": {"m22_mulposition", []typ{tM22, tV2}, tV2},
@@ -2063,7 +3366,7 @@ func Translate(repo string) (*Result, error) {
 	b.WriteString("   Some (Evaluate, BoundingBox) of the struct it built.\n")
 	b.WriteString("   Sdf/GenEq.v proves these equal to the hand-written model (Geo/Vec.v, Geo/Box.v, Geo/Mat.v,\n")
 	b.WriteString("   Sdf/Union2.v, Sdf/Shape.v). *)\n")
-	b.WriteString("From Coq Require Import ZArith List Bool.\nFrom Sdfx Require Import Num.Ops Geo.Vec Geo.Box Generated.MatrixExpr.\n")
+	b.WriteString("From Coq Require Import ZArith List Bool.\nFrom Sdfx Require Import Num.Ops Num.Loop Geo.Vec Geo.Box Generated.MatrixExpr.\n")
 	b.WriteString("Import OpsNotations ListNotations.\nLocal Open Scope ops_scope.\n\nSection SdfExpr.\n  Context {O : Ops}.\n\n")
 	for _, d := range g.order {
 		b.WriteString(d.text)
